@@ -121,7 +121,7 @@ M('C11', 'cancelled-flag-never-set', 'src/consumer.rs', '        self.cancelled.
 M('C11', 'server-cancel-reported-as-client', CST, 'send(&tx, ConsumerMessage::ServerCancelled)?;', 'send(&tx, ConsumerMessage::ClientCancelled)?;', 'R11.2')
 M('C11', 'cancelok-regardless-of-nowait', CST, '                if !cancel.nowait {\n                    inner.push_method(n, AmqpBasic::CancelOk(CancelOk { consumer_tag }));\n                }', '                {\n                    inner.push_method(n, AmqpBasic::CancelOk(CancelOk { consumer_tag }));\n                }', 'R11.2')
 M('C11', 'drop-does-not-cancel', 'src/consumer.rs', '        let _ = self.cancel();', '        let _ = self.cancelled.get();', 'R11.5')
-M('C11', 'terminal-before-reply-swapped', CST, '                let consumer = slot.consumers.remove(&cancel_ok.consumer_tag);\n                send(', '                let consumer = slot.consumers.get(&cancel_ok.consumer_tag).cloned();\n                send(', 'R11.')
+M('C11', 'terminal-before-reply-swapped', CST, '                let consumer = slot.consumers.remove(&cancel_ok.consumer_tag);\n                // Consumer first', '                let consumer = slot.consumers.get(&cancel_ok.consumer_tag).cloned();\n                // Consumer first', 'R11.')
 # ------------------------------------------------------------------------------------------------ C12
 M('C12', 'nowait-in-sync-bind', 'src/channel.rs', '            routing_key: routing_key.into(),\n            nowait: false,\n            arguments,\n        });\n        self.call::<_, QueueBindOk>(bind)', '            routing_key: routing_key.into(),\n            nowait: true,\n            arguments,\n        });\n        self.call::<_, QueueBindOk>(bind)', 'R12.1')
 M('C12', 'source-destination-swapped', 'src/exchange.rs', '            .exchange_bind(self.name(), source.name(), routing_key, arguments)', '            .exchange_bind(source.name(), self.name(), routing_key, arguments)', 'R12.1')
